@@ -586,6 +586,26 @@ func (p *c16) Check(sc *runner.Scenario, st *runner.Stats, pin string) *runner.V
 			return v
 		}
 	}
+	// Messages() with default options: through the index, or falling back to a scan - never fewer
+	{
+		dr := drive.ReadMessages(simdisk.NewSeekSource(img, del, nil), drive.ReadSpec{UseIndex: true, OmitUsingIndex: true})
+		st.Evaluations++
+		if dr.Panic != nil {
+			return mk("py_to_go:default_read:go_error", "Go Messages() with default options panicked on a Python-written file: %s", dr.Panic)
+		}
+		if dr.Terminal() == "eof" {
+			if d := model.DiffSeq(c.Messages, dr.Msgs); d != "" {
+				if v := mk("py_to_go:default_read:messages", "Go Messages() with default options: %s", d); v != nil {
+					return v
+				}
+			}
+			st.Inc("probe.go_default_read_on_python_file")
+		} else if fileIndexed(img) {
+			return mk("py_to_go:default_read:go_error", "Go Messages() with default options ended with %s on an indexed Python-written file: %v", dr.Terminal(), dr.FirstErr())
+		} else {
+			st.Inc("probe.go_default_read_error_on_unindexed_python_file")
+		}
+	}
 	// random access through the index entries the Python writer emitted
 	{
 		src := simdisk.NewSeekSource(img, del, nil)
